@@ -150,6 +150,7 @@ var DisableHardForkCheck bool
 
 func Open(path string, fk *fake.Node, hooks *sqlw.Hooks, wal bool) (*Daemon, error) {
 	Setup()
+	GlobalsPristine() // a node that is started is a new process: package-level state as at program start
 	conf := viper.New()
 	conf.Set(config.DisableHardForkCheck, DisableHardForkCheck)
 	conf.Set(config.SqliteDBPath, path)
